@@ -8,6 +8,12 @@ COMMON_NOTE = ("Trusted: Coq 8.16.1 kernel (full .vo build, Print Assumptions = 
                "extraction with ExtrOcamlBasic only, ocaml/driver.ml, the Rust harness; the hand-written model is tied "
                "to /repo's source by the differential (correspondence) run of every check, the tables by the translator.")
 CLAIMS = {
+ "C02": ("Coq theorems for EVERY layout (not only shipped ones), every byte string, every fuel: the generated decoder never returns Panic, "
+         "never hands back more than it was given, and fuel = nesting depth suffices (no loop without progress); instantiated by computation on "
+         "the regenerated tables for all shipped command decoders, containers and reply parsers; BCD decoder = exact value or error. Tie: "
+         "differential run in debug (overflow checks) AND release builds over all short bodies, every truncation and single-byte "
+         "substitution of corpus + generated packets, structure-aware mutants; model-free oracle: never Panic/Hang, allocation "
+         "measured by a counting allocator <= 64*len+8192.", "DESIGN.md section 6, C02"),
  "C16": ("Unbounded Coq theorems about the model of zvt_builder::length (round trip with arbitrary trailing data, injectivity, "
          "shortest form with the 128/256 and 255 switch points, truncated prefix is an error, no parser panics); the model is tied "
          "to the code by an exhaustive differential run (every representable length of every style; every 1-2 byte prefix "
